@@ -16,7 +16,7 @@
      gallery  1..4 stored images, each with its own caption, optional gallery caption
      tpl      a block-level call of a template stored in the archive (list / table templates)
 
-   inline items: a word in a style (plain, ''' ''', '' '', ''''' ''''', <b>, <i>), a labelled
+   inline items: a word in a style (plain, ''' ''', '' '', ''''' ''''', <b>, <i>, <strong>, <em>), a labelled
    internal link, a bare internal link, a labelled external link, a <ref>, an inline call of a
    stored template with one argument, an inline image (its "caption" is alt text: NOT
    visible), a figure (in cells).
@@ -70,7 +70,7 @@ TplWords(tp) ==
 TplDeps(tp) == IF tp = "Tnest" THEN {"Tnest", "Tinl"} ELSE {tp}
 Images == 1..3
 
-Styles == {"n", "b", "i", "bi", "hb", "hi"}
+Styles == {"n", "b", "i", "bi", "hb", "hi", "hs", "he"}   \* plain, ''' '', ''''', <b> <i> <strong> <em>
 
 \* inline items
 W(n, s)        == [t |-> "w", w |-> n, s |-> s]
